@@ -653,7 +653,7 @@ def _new_record(rnd, cfg, prop):
 
 def _faults(rnd, cfg):
     if cfg["fault_rate"] and rnd.random() < cfg["fault_rate"]:
-        f = {"kind": "F-gesdd", "nth": rnd.choice((1, 1, 1, 2, 2, 3, 4))}
+        f = {"kind": "F-gesdd", "nth": rnd.choice((1, 1, 1, 2, 2, 3, 3, 4, 5, 6, 8))}
         if rnd.random() < cfg["double_p"]:
             f["double"] = True
         fl = [f]
